@@ -210,6 +210,8 @@ class Obj:
     def __str__(self):
         if '__str__' in self.methods:
             return self.call('__str__')
+        if getattr(self, 'enum_member', None):
+            return '%s.%s' % self.enum_member
         if '__repr__' in self.methods:
             return self.call('__repr__')
         return '<%s object>' % (self.clsname or 'record')
@@ -217,6 +219,8 @@ class Obj:
     def __repr__(self):
         if '__repr__' in self.methods:
             return self.call('__repr__')
+        if getattr(self, 'enum_member', None):
+            return '<%s.%s: %r>' % (self.enum_member + (self.fields.get('value'),))
         if getattr(self, 'ntfields', None):
             return '%s(%s)' % (self.clsname, ', '.join('%s=%r' % (k_, self.fields[k_]) for k_ in self.ntfields))
         if getattr(self, 'dcfields', None) is not None and self.dcopts.get('repr'):
@@ -282,7 +286,7 @@ import types as _types
 import re as _re_mod
 import string as _string_mod
 _SAFE_MODULES = {'re': _re_mod, 'string': _string_mod}
-_PLUMBING = ('itertools', 'functools', 'operator', 'collections', 'heapq', 'bisect', 'contextlib')
+_PLUMBING = ('itertools', 'functools', 'operator', 'collections', 'heapq', 'bisect', 'contextlib', 'dataclasses', 'enum', 'typing')
 # builtins that may be taken as values (handed to map / partial / a table) and then mean what the interpreter makes them mean
 _VALUE_BUILTINS = frozenset(('getattr', 'setattr', 'hasattr', 'delattr', 'isinstance', 'len', 'iter', 'next', 'str', 'repr', 'hash', 'id', 'list', 'tuple', 'set', 'frozenset',
                              'dict', 'sorted', 'reversed', 'enumerate', 'zip', 'map', 'filter', 'min', 'max', 'sum', 'any', 'all', 'abs', 'int', 'float', 'bool', 'round',
@@ -978,9 +982,8 @@ def _build_pure_modules():
         def dispatcher(*a, **k):
             if not a:
                 raise TypeError('%s requires at least 1 positional argument' % getattr(fn, '__name__', 'function'))
-            if isinstance(a[0], PyStub) and not isinstance(a[0], Obj):
-                raise Unsupported('singledispatch on an abstract object')
-            for nm_ in class_names(a[0]):
+            names_ = (list(getattr(a[0], 'isa', ())) + ['object']) if isinstance(a[0], PyStub) and not isinstance(a[0], Obj) else class_names(a[0])
+            for nm_ in names_:
                 for key_, impl in reversed(registry):
                     if key_ == nm_:
                         return impl(*a, **k)
@@ -1002,8 +1005,61 @@ def _build_pure_modules():
         dispatcher.__name__ = getattr(fn, '__name__', 'dispatcher')
         return dispatcher
     _Functools._names.update({'wraps': wraps, 'lru_cache': lru_cache, 'cache': lru_cache(None), 'singledispatch': singledispatch})
+    class _FieldInfo(PyStub):
+        def __init__(self, name):
+            self.name = name
+
+        def __repr__(self):
+            return 'Field(name=%r)' % self.name
+
+    def dc_fields(obj):
+        names_ = getattr(obj, 'dcfields', None)
+        if names_ is None and hasattr(obj, '_dataclass') and callable(getattr(obj, '_dataclass')):
+            dc_ = obj._dataclass()
+            names_ = tuple(f_[0] for f_ in dc_[0]) if dc_ else None
+        if names_ is None:
+            raise TypeError('must be called with a dataclass type or instance')
+        return tuple(_FieldInfo(nm_) for nm_ in names_)
+
+    def dc_replace(obj, **changes):
+        if getattr(obj, 'dcfields', None) is None:
+            raise TypeError('replace() should be called on dataclass instances')
+        from . import absint as _absint
+        new_ = _absint.shallow_copy(obj)
+        for k_, v_ in changes.items():
+            if k_ not in obj.dcfields:
+                raise TypeError('__init__() got an unexpected keyword argument %r' % k_)
+            new_.fields[k_] = v_
+        return new_
+
+    def dc_astuple(obj):
+        return tuple(obj.fields.get(k_) for k_ in obj.dcfields)
+
+    def dc_asdict(obj):
+        return {k_: obj.fields.get(k_) for k_ in obj.dcfields}
+
+    class _Dataclasses(_PureModule):
+        _names = {'dataclass': lambda *a, **k: (a[0] if a and not k else (lambda c_: c_)), 'field': lambda **k: k.get('default', None),
+                  'fields': dc_fields, 'replace': dc_replace, 'astuple': dc_astuple, 'asdict': dc_asdict}
+
+    class _Marker(PyStub):
+        def __init__(self, name):
+            self.__name__ = name
+
+    class _Enum(_PureModule):
+        _names = {'Enum': _Marker('Enum'), 'IntEnum': _Marker('IntEnum'), 'auto': lambda: None, 'unique': lambda c_: c_}
+
+    class _Typing(_PureModule):
+        _names = {'NamedTuple': _Marker('NamedTuple')}
+
+        def __getattr__(self, k):
+            if k in type(self)._names:
+                return type(self)._names[k]
+            if k.startswith('_') or k in ('repo_methods', 'repo_funcs', 'isa'):
+                raise AttributeError(k)
+            return _Marker(k)          # (typing names only ever appear in annotations)
     return {'itertools': _Itertools(), 'functools': _Functools(), 'operator': _Operator(), 'collections': _Collections(), 'heapq': _Heapq(), 'bisect': _Bisect(),
-            'contextlib': _Contextlib()}
+            'contextlib': _Contextlib(), 'dataclasses': _Dataclasses(), 'enum': _Enum(), 'typing': _Typing()}
 
 
 _SYN_STORE = ast.parse('_a0[_a1]', mode='eval').body
@@ -1470,6 +1526,17 @@ def ev(n, env, funcs=None):
             # the standard copy module (not numpy.copy, which the harness may provide under the same bare name)
             from . import absint as _absint
             return (_absint.shallow_copy if fname == 'copy' else _absint.deep_copy)(ev(n.args[0], env, funcs))
+        if isinstance(f, ast.Attribute) and isinstance(f.value, ast.Name) and f.value.id == 'object' and 'object' not in env and fname in ('__setattr__', '__getattribute__', '__delattr__'):
+            a_ = _args(n, env, funcs)
+            if a_ and isinstance(a_[0], Obj) and len(a_) >= 2 and isinstance(a_[1], str):
+                if fname == '__setattr__' and len(a_) == 3:
+                    a_[0].fields[a_[1]] = a_[2]
+                    return None
+                if fname == '__getattribute__' and len(a_) == 2:
+                    if a_[1] in a_[0].fields:
+                        return a_[0].fields[a_[1]]
+                    raise AttributeError(a_[1])
+            raise Unsupported('object.%s' % fname)
         if isinstance(f, ast.Attribute) and isinstance(f.value, ast.Name) and f.value.id in _MATCH_BUILTINS and f.value.id not in env \
                 and not (funcs and f.value.id in funcs) and not fname.startswith('_') and hasattr(_MATCH_BUILTINS[f.value.id], fname):
             # dict.fromkeys(...), str.join(sep, parts), float.fromhex(...): a method of a builtin type reached through the type
@@ -1538,6 +1605,16 @@ def ev(n, env, funcs=None):
             if isinstance(rv, Obj) and fname not in rv.methods and callable(rv.fields.get(_mangled(fname, env))):
                 # a callable stored in a field (a model function handed to the object)
                 return rv.fields[_mangled(fname, env)](*_args(n, env, funcs), **_kw(n, env, funcs))
+            if isinstance(rv, Obj) and fname not in rv.methods and _mangled(fname, env) not in rv.methods and _mangled(fname, env) not in rv.fields \
+                    and '__getattr__' in rv.methods and not (getattr(rv, 'ntfields', None) and fname in ('_replace', '_asdict')):
+                target_ = rv.call('__getattr__', fname)
+                if isinstance(target_, Obj):
+                    if '__call__' not in target_.methods:
+                        raise TypeError('%r object is not callable' % (target_.clsname or 'record'))
+                    return target_.call('__call__', *_args(n, env, funcs), **_kw(n, env, funcs))
+                if not callable(target_):
+                    raise TypeError('%r object is not callable' % type(target_).__name__)
+                return target_(*_args(n, env, funcs), **_kw(n, env, funcs))
             if isinstance(rv, Obj) and (fname in rv.methods or _mangled(fname, env) in rv.methods):
                 mn_ = _mangled(fname, env)
                 if mn_ in rv.methods:
@@ -1736,6 +1813,12 @@ def ev(n, env, funcs=None):
                     return args[2]
                 raise AttributeError(args[1])
             if isinstance(o_, PyStub):
+                if hasattr(o_, args[1]) and _repo_method(o_, args[1]) is None:
+                    return getattr(o_, args[1])
+                if _repo_method(o_, args[1]) is not None or (getattr(o_, 'repo_methods', None) and args[1] in o_.repo_methods):
+                    # a method the model leaves to the repository's class: bound, to be interpreted when called
+                    nm__ = args[1]
+                    return lambda *a_, **k_: Obj.call(_Bound(o_, o_.repo_methods, getattr(o_, 'repo_funcs', funcs)), nm__, *a_, **k_)
                 if hasattr(o_, args[1]):
                     return getattr(o_, args[1])
                 if len(args) == 3:
@@ -1756,6 +1839,8 @@ def ev(n, env, funcs=None):
         if isinstance(f, ast.Name) and fname == 'str' and len(args) == 1 and (args[0] is None or isinstance(args[0], (PyStub, Obj, list, tuple, dict))):
             if isinstance(args[0], Obj) and '__str__' in args[0].methods:
                 return args[0].call('__str__')
+            if isinstance(args[0], Obj) and (getattr(args[0], 'enum_member', None) or getattr(args[0], 'ntfields', None) or getattr(args[0], 'dcfields', None) is not None or '__repr__' in args[0].methods):
+                return str(args[0])
             return '<%s>' % type(args[0]).__name__ if isinstance(args[0], (PyStub, Obj)) else str(args[0])
         if fname in ('int', 'float', 'bool') and len(args) == 1:
             return {'int': int, 'float': float, 'bool': bool}[fname](args[0])
@@ -1800,7 +1885,7 @@ def ev(n, env, funcs=None):
             if fname == 'repr' and len(args) == 1:
                 a0 = args[0]
                 if isinstance(a0, Obj):
-                    return repr(a0) if ('__repr__' in a0.methods or getattr(a0, 'ntfields', None) or getattr(a0, 'dcfields', None) is not None) else '<%s object>' % (sorted(a0.isa)[0] if a0.isa else 'record')
+                    return repr(a0) if ('__repr__' in a0.methods or getattr(a0, 'ntfields', None) or getattr(a0, 'dcfields', None) is not None or getattr(a0, 'enum_member', None)) else '<%s object>' % (sorted(a0.isa)[0] if a0.isa else 'record')
                 if isinstance(a0, PyStub):
                     return repr(a0) if type(a0).__repr__ is not object.__repr__ else '<%s object>' % type(a0).__name__
                 return repr(a0)
